@@ -8,7 +8,7 @@ def tail(s, n=2500):
     return s[-n:]
 
 
-REQ = ["Verif.lib.PyLite", "Verif.gen.BananaGen", "Verif.gen.SlicersGen", "Verif.lib.Token", "Verif.lib.Obj", "Verif.lib.ObjDefer"]
+REQ = ["Verif.lib.PyLite", "Verif.gen.BananaGen", "Verif.gen.SlicersGen", "Verif.lib.Token", "Verif.lib.Obj", "Verif.lib.ObjDefer", "Verif.lib.SendHeap"]
 
 V1 = None
 
@@ -54,14 +54,18 @@ def run(ctx):
         "byte-level receive (handleData, StringChain) is the lead's C07: its generic tokenizer (lib/Recv.v) is composed with the object "
         "layer in C01_end_to_end_any_chunking (every packetisation); the tie of Recv.v to banana.py is C07's; the real "
         "receiver is run under 1-chunk / bytewise / random chunkings",
-        "canon (read-back of the model's heap) inverting the denotation is checked per case by vm_compute, not proved in general",
+        "the sender is a machine in the model (lib/SendHeap.v: slicer stack, scoped reference tables translated from ScopedSlicer, open "
+        "counter) and is run on the harness's encoding of the sender's heap; not modelled there: Python's object lifetime (an object is "
+        "its id for the whole scope: the translator requires the table entry to hold the object), the order in which dict / set "
+        "children are produced (sorted keys with fallback / iteration order: taken from the real objects), getStateToCopy() (called again "
+        "at every encounter of a pass-by-copy instance: a fresh node per encounter)",
     ]
     ok, log = ctx.coq_build(["props/C01.vo"])
     from harness import c01_impl as I
     before = len(ctx.failures)
     model_ok = ok
     if not ok:
-        model_ok, _ = ctx.coq_build(["lib/ObjDefer.vo"])
+        model_ok, _ = ctx.coq_build(["lib/ObjDefer.vo", "lib/SendHeap.vo"])
 
     del COUNTER_CASES[:]
     del REFUSED_CASES[:]
@@ -423,7 +427,17 @@ def roundtrip_case(ctx, I, name, objs, voc, coq_cases, corpus=False):
             break
     if ok_all:
         ctx.hist("outcome", "delivered")
-        coq_cases.append(dict(name=name, scoped=True, n=0, terms=terms, voc=voc, data=data, hazard=bool(hazards)))
+        coq_cases.append(dict(name=name, scoped=True, n=0, terms=terms, voc=voc, data=data, hazard=bool(hazards), heap=heap_of_case(I, objs, data)))
+
+
+def heap_of_case(I, objs, data, limit=4000):
+    """the sender's heap for the model's sender machine (SendHeap.v); None for large cases (their terms are still checked)"""
+    if len(data) > limit:
+        return None
+    try:
+        return I.heap_coq(*I.heap_py(objs))
+    except (I.Unsupported, RecursionError):
+        return None
 
 
 def oracle_sig(d, I=None, terms=None, n=0):
@@ -820,12 +834,16 @@ def call_case(ctx, I, name, argsets, coq_cases, vi=None, chunk=None, preludes=()
     ctx.hist("outcome", "calls-delivered-isolated")
     # the request ids are whatever the broker chose: read them back from the first INT after "call"
     fixed = []
-    for t, data in zip(terms, sent_bytes):
+    scopes_sent = []
+    for t, data, (a, kw) in zip(terms, sent_bytes, argsets):
         rid = first_int_after_call(data, voc)
         kids = list(t[3])
         kids[0] = ("int", rid)
         fixed.append(("cont", t[1], t[2], kids))
-    coq_cases.append(dict(name=name, scoped=False, n=n0, terms=fixed, voc=voc, data=b"".join(sent_bytes), hazard=False))
+        argscope = I.Scope(b"arguments", [len(a)] + list(a) + [x for k in sorted(kw) for x in (k.encode(), kw[k])])
+        scopes_sent.append(I.Scope(b"call", [rid, P.clid, b"take", argscope]))
+    coq_cases.append(dict(name=name, scoped=False, n=n0, terms=fixed, voc=voc, data=b"".join(sent_bytes), hazard=False,
+                          heap=heap_of_case(I, scopes_sent, b"".join(sent_bytes))))
     # one more call whose value travels back inside an answer scope (AnswerSlicer / AnswerUnslicer)
     a0 = argsets[0][0]
     val = list(a0)
@@ -898,8 +916,8 @@ Definition zb (neg : bool) (bs : list Z) : Z := let v := fold_left (fun a b => a
 
 CHK = ZB + """
 Definition fuel_of (ts : list obj) : nat := S (size_list ts).
-Definition chk (c : bool * Z * list obj * vtable * list Z * bool) : Z :=
-  let '(sc, n, ts, tbl, bs, dec) := c in
+Definition chk (c : bool * Z * list obj * vtable * list Z * bool * option (sheap * list sval)) : Z :=
+  let '(sc, n, ts, tbl, bs, dec, hq) := c in
   let toks := slice_list n ts in
   let b_wf := match wf_list sc [] [] n ts with Some _ => true | None => false end in
   let wire := envocab tbl toks in
@@ -919,7 +937,17 @@ Definition chk (c : bool * Z * list obj * vtable * list Z * bool) : Z :=
   let b_drecv := match tko with Some tk => same (dunslice sc n tk) | None => false end in
   let b_wide := match wf_list_wide sc [] [] n ts with Some _ => true | None => false end in
   (if b_wf then 1 else 0) + (if b_tok then 2 else 0) + (if b_send then 4 else 0) + (if b_recv then 8 else 0)
-  + (if b_drecv then 16 else 0) + (if b_wide then 32 else 0).
+  + (if b_drecv then 16 else 0) + (if b_wide then 32 else 0)
+  (* the SENDER MACHINE (slicer stack, scoped reference tables, open counter) run on the sender's heap: its canonical
+     descent gives the harness's canonical terms, its token stream (abbreviated, encoded) is the real serializer's bytes *)
+  + match hq with
+    | None => 192
+    | Some (h, q) =>
+      (match canon_of (S (size_list ts)) h sc n q with Some os => if objs_eqb os ts then 64 else 0 | None => 0 end)
+      + (match send_heap (S (List.length bs)) h sc n q with
+         | Some toks => match encode_stream (envocab tbl toks) with Ok b => if list_eqb b bs then 128 else 0 | Exc _ => 0 end
+         | None => 0 end)
+    end.
 (* graphs the real receiver refused or never completed: how the Deferred-level model ends (0 delivered, 1 refused, 2 left pending) *)
 Definition rchk (c : vtable * list Z) : Z :=
   let '(tbl, bs) := c in
@@ -971,8 +999,11 @@ def correspond(ctx, I, coq_cases, switch_cases):
     # shards by size of the literal text
     shards, cur, cursz = [], [], 0
     for c in coq_cases:
-        txt = "(%s, %d, [%s], %s, %s, %s)" % ("true" if c["scoped"] else "false", c["n"], "; ".join(term_coq(t) for t in c["terms"]),
-                                              coq_tbl(c["voc"] or []), coq_Zs(c["data"]), "true" if len(c["data"]) <= 1200 else "false")
+        hq = c.get("heap")
+        txt = "(%s, %d, [%s], %s, %s, %s, %s)" % ("true" if c["scoped"] else "false", c["n"], "; ".join(term_coq(t) for t in c["terms"]),
+                                                  coq_tbl(c["voc"] or []), coq_Zs(c["data"]), "true" if len(c["data"]) <= 1200 else "false",
+                                                  "Some (%s, %s)" % hq if hq else "None")
+        ctx.hist("sender_machine", "run on the heap" if hq else "skipped (large / computed copy state)")
         if cur and (cursz + len(txt) > 900000 or len(cur) >= 150):
             shards.append(cur)
             cur, cursz = [], 0
@@ -981,7 +1012,7 @@ def correspond(ctx, I, coq_cases, switch_cases):
     if cur:
         shards.append(cur)
     for si, shard in enumerate(shards):
-        body = "Open Scope Z_scope.\n" + CHK + "Definition cases : list (bool * Z * list obj * vtable * list Z * bool) := [\n" + \
+        body = "Open Scope Z_scope.\n" + CHK + "Definition cases : list (bool * Z * list obj * vtable * list Z * bool * option (sheap * list sval)) := [\n" + \
                ";\n".join(t for _, t in shard) + "].\nEval vm_compute in map chk cases.\n"
         try:
             (vals,) = ctx.coq_eval("C01_cases_%d" % si, body, requires=REQ)
@@ -990,11 +1021,11 @@ def correspond(ctx, I, coq_cases, switch_cases):
             return
         for (c, _), v in zip(shard, vals):
             total += 1
-            want = 63
-            if c.get("crafted") and v in (60, 28, 62, 30):
+            want = 255
+            if c.get("crafted") and (v & 63) in (60, 28, 62, 30):
                 ctx.hist("outcome", "crafted stream delivered, Deferred-level model agrees")
                 continue
-            if v == 62 and I.has_deferred_tuple(c["terms"], c["n"]):
+            if v == 254 and I.has_deferred_tuple(c["terms"], c["n"]):
                 ctx.hist("outcome", "deferred completion: Deferred-level model agrees (deferred_sound applies)")
                 continue
             if v != want:
@@ -1013,8 +1044,13 @@ def correspond(ctx, I, coq_cases, switch_cases):
                                 "term's graph although the implementation did")
                 if not v & 32:
                     what.append("the canonical term is outside the wide guard (wf_list_wide)")
+                if not v & 64:
+                    what.append("sender machine: the canonical descent of the model over the sender's heap (SendHeap.canon_of) differs from the harness's canonical term")
+                if not v & 128:
+                    what.append("sender machine: the token stream of SendHeap.send_heap on the sender's heap (abbreviated, encoded) differs from the bytes the real slicers wrote")
                 sig = "correspondence/sender-bytes" if not v & 4 else ("correspondence/receiver-model" if not v & 8 else
-                                                                        ("correspondence/deferred-receiver" if not v & 16 else "correspondence/wf"))
+                                                                        ("correspondence/deferred-receiver" if not v & 16 else
+                                                                         ("correspondence/sender-machine" if (v & 192) != 192 else "correspondence/wf")))
                 ctx.fail(sig, "model and implementation disagree on case %s: %s; term: %s" %
                          (c["name"], "; ".join(what), " ; ".join(term_coq(t) for t in c["terms"])[:600]),
                          replay=dict(case=c["name"], code=v, term=[term_coq(t) for t in c["terms"]], data=c["data"].hex()[:4000],
